@@ -56,10 +56,6 @@ def seqFrom (k : Nat) : List (List (α → α)) → Exec α
 /-- the sequential (single-thread, loop-order) execution -/
 def seqExec (progs : List (List (α → α))) : Exec α := seqFrom 0 progs
 
-/-- replace the head program of cell `k` (helper of `schedule`) -/
-def setProg (progs : List (List (α → α))) (k : Nat) (p : List (α → α)) : List (List (α → α)) :=
-  progs.set k p
-
 /-- An executable scheduler: `choices` says which cell advances next (taken modulo the
 number of cells; a choice naming a finished cell is skipped); when the choices are
 exhausted the remaining steps are drained in cell order.  Every result is an
